@@ -12,6 +12,7 @@ import (
 	"net/http"
 	"path"
 	"regexp"
+	"slices"
 	"strconv"
 	"strings"
 	"sync"
@@ -345,7 +346,7 @@ func (fox *Router) NewRoute(pattern string, handler HandlerFunc, opts ...RouteOp
 		clientip:              fox.clientip,
 		hbase:                 handler,
 		pattern:               pattern,
-		mws:                   fox.mws,
+		mws:                   slices.Clone(fox.mws),
 		redirectTrailingSlash: fox.redirectTrailingSlash,
 		ignoreTrailingSlash:   fox.ignoreTrailingSlash,
 		psLen:                 n,
